@@ -19,6 +19,7 @@ def run(rep, prog, tier):
     r4(rep, prog)
     r5(rep, prog)
     r7(rep, prog)
+    r8(rep, prog)
     rep.rule("C12-R6", "score memo invalidation (shared with C13-R2): a scorer whose score() memoises its result in a field of self (RequiredOptionalScorer.score_cache) stores into that field in every DocSet method that moves a sub-docset — advance, seek and seek_danger — so the score reported for a document is the one computed for that document, however it was reached")
     from ..report import Retag
     from .c13 import memo_invalidation
@@ -52,6 +53,27 @@ def r7(rep, prog):
         missing = sorted(fmt_path(x) for x in wu - wc)
         rep.check(not missing, R, "%s::clear resets what update accumulates" % short(ty), "update writes %s, clear writes %s" % (sorted(fmt_path(x) for x in wu), sorted(fmt_path(x) for x in wc)),
                   "`%s`::clear does not reset self%s, which update() accumulates into: a reused combiner carries the score of an earlier document" % (ty, ", self".join(missing)), site=prog.bodies[ms["clear"]].span)
+
+
+def r8(rep, prog):
+    """all clauses of a query are scored on the same statistics"""
+    R = "C12-R8"
+    rep.rule(R, "one statistics source: every Bm25Weight::for_terms / for_one_term call whose provider comes out of an EnableScoring::Enabled value takes the `statistics_provider` field, never `searcher` (under Searcher::search_with_statistics_provider the two differ; a query type that reads `searcher` scores its clause on other statistics than the clauses next to it)")
+    names = prog.names(r"bm25::Bm25Weight::for_(terms|one_term)(_without_explain)?$")
+    n = 0
+    for b, bi, t in prog.who_calls(set(names)):
+        if "::tests::" in b.id or not t.get("args"):
+            continue
+        l = op_local(t["args"][0])
+        tr = trace_back(b, l) if l is not None else []
+        if not any(s[0] == "downcast" and s[1] == "Enabled" for s in tr):
+            continue
+        n += 1
+        fld = next((s[2] for s in tr if s[0] == "field"), None)
+        rep.check(fld == "statistics_provider", R, "%s takes its statistics from the provider" % short(b.id), "EnableScoring::Enabled { statistics_provider, .. }",
+                  "`%s` builds its Bm25Weight from the `%s` field of EnableScoring::Enabled instead of `statistics_provider`: with a custom statistics provider this clause is scored on the local searcher's "
+                  "statistics while term / phrase clauses of the same query follow the provider" % (b.id, fld), site=site(b, bi))
+    rep.floor(R, "weight constructors reading EnableScoring::Enabled", n, 4)
 
 
 def r4(rep, prog):
